@@ -16,6 +16,7 @@ import (
 
 var (
 	reObsoleteToken  = regexp.MustCompile(`^[0-9a-z]{41,}$`)
+	reSaltedSecret   = regexp.MustCompile(`^[0-9a-f]{40}$`)
 	ErrObsoleteToken = errors.New("obsolete token format")
 	ErrTokenFormat   = errors.New("badly formatted token")
 	ErrSalted        = errors.New("token already salted")
@@ -31,7 +32,7 @@ func SaltToken(token, remote string) (string, error) {
 	}
 	uuid := parts[1]
 	secret := parts[2]
-	if len(secret) != 40 {
+	if !reSaltedSecret.MatchString(secret) {
 		// not already salted
 		hmac := hmac.New(sha1.New, []byte(secret))
 		io.WriteString(hmac, remote)
